@@ -37,7 +37,7 @@ pub fn check_family(env: &Env, p: Prof, fam: &[String], rec: &mut Rec) {
             rec.eval();
             let case = || format!("profile={};a={};b={}", p.name(), util::esc(&fam[i]).replace(';', "\\u{3B}"), util::esc(&fam[j]));
             let want = expected_pair(&forms[i], &forms[j]);
-            if !want.contains(&got) {
+            if !api::accepts(&want, &got) {
                 rec.violation(
                     "compare-differs-from-equality-of-reference-comparison-forms",
                     Witness {
